@@ -12,12 +12,12 @@ for f in ("patch.diff","demo.rs","notes.md"):
     shutil.copy(f"{src}/{f}",f"{dst}/{f}")
 line=[l for l in open(f"/tmp/confirm_{ID}.log") if l.startswith("RESULT") and f"/m{k} " in l][-1]
 m=re.search(r"demo_without_patch_exit=(\d+) demo_with_patch_exit=(\d+) baseline: baseline: (\d+/\d+)",line)
-meta={"property":ID,"round":4,"change":change,"needs_to_manifest":needs,
+meta={"property":ID,"round":int(os.environ.get("ROUND","4")),"change":change,"needs_to_manifest":needs,
  "demo":{"place_at":f"<worktree>/fe2o3-amqp/tests/mutant_demo_{k}.rs","cmd":f"cargo test -p fe2o3-amqp --features {feat} --test mutant_demo_{k} --offline"},
  "confirmed":{"how":"tools/seed_confirm.sh (confirm_mutant.sh in the sub-agent's scratch worktree moved to the /repo HEAD of the time): patch applies, baseline tests pass with the patch, demo exits 0 without the patch and non-zero with it",
    "baseline_with_patch":m.group(3),"demo_without_patch_exit":int(m.group(1)),"demo_with_patch_exit":int(m.group(2))},
  "detected_by_quick_checks":[] if det=="-" else det.split(","),
- "origin":"independent sub-agent given only the property text and a scratch worktree (fourth round: combinations, orderings, clean-up paths, two places that must agree)"}
+ "origin":"independent sub-agent given only the property text and a scratch worktree (round " + os.environ.get("ROUND","4") + ": combinations, orderings, clean-up paths, two places that must agree)"}
 if notes: meta["notes"]=notes
 json.dump(meta,open(f"{dst}/meta.json","w"),indent=1,ensure_ascii=False)
 print("saved",dst,m.groups())
